@@ -124,6 +124,7 @@ def broker_part(chk, q):
     herds = brokerlib.generate_herds(80 if q else 600, chk.seed + 21, 1)
     for s_ in herds:
         s_["rollduring"], s_["rollover"] = True, False
+        s_["georeload"] = True      # the operator's SIGHUP reload of the GeoIP tables arrives while polls are served
     reps = brokerlib.generate_replays(chk, {"Gen_core": 100 if q else 600}, chk.seed + 22)
     for n, s_ in enumerate(reps):
         s_["id"] = 10000 + n
